@@ -264,6 +264,7 @@ void setup(Handler& ah, Dest& d, int cfg, int part /* 0 = all, 1/2 = halves for 
       if (pa_opt & 8) a->setUniqueData(true);
       if (pa_opt & 16) a->setListSep(';');
       if (pa_opt & 32) a->setTakesMultiValue();
+      if (pa_opt & 8192) a->setCardinality(cardinality_max(2));       // at most two values from the command line
       // the same options on a container WITHOUT previous content
       auto* e = ah.addArgument("e,empty", DEST_VAR(d.c), "values, initially empty");
       if (pa_opt & 1) e->setClearBeforeAssign();
@@ -584,7 +585,9 @@ HX void hx_pa_env(uint64_t cfg, uint64_t mode) {
    Tmpl t; parse(t);
    Dest d;
    pa_opt = (unsigned) (mode >> 8);
-   Handler ah(Handler::hfEnvVarArgs);
+   // mode bit 1: the name of the variable is given by the application (mixed case) instead of being derived from the program name
+   Handler ah((mode & 2) ? 0 : Handler::hfEnvVarArgs);
+   if (mode & 2) ah.checkEnvVarArgs("my_App_Args");
    setup(ah, d, (int) cfg, 0);
    // words before the marker word "\x02" are delivered through the environment variable PROG, the rest on argv
    std::string env; std::vector<std::string> cmd; bool in_env = true;
@@ -593,7 +596,8 @@ HX void hx_pa_env(uint64_t cfg, uint64_t mode) {
       if (in_env) { if (!env.empty()) env += ' '; env += w; } else cmd.push_back(w);
    }
    if (mode & 1) env = " " + env;            // the value of the variable begins with a blank
-   vs_setenv("PROG", env.c_str());
+   vs_setenv((mode & 2) ? "my_App_Args" : "PROG", env.c_str());
+   if (mode & 2) vs_setenv("MY_APP_ARGS", "--no-such-argument");
    Argv av(cmd);
    int rc = guarded([&] { ah.evalArguments(av.argc(), av.argv()); });
    judge(t, rc, d);
